@@ -860,6 +860,33 @@ theorem symbolic_pr (δ : XExpr) (env : String → Option ℝ) {d : ℝ} (hδ : 
   · simpa [symPR, prDoc] using evalC_neg hs
   · simpa [symPR, prDoc] using hc
 
+/-- `PS(phi, max_error)`: numeric branch `phase = float(phi) + float(max_error) * r`, `r = random.uniform(-1, 1)`.
+Whatever the draw, the matrix is the documented phase shifter at `φ + δ` with `|δ| ≤ max_error`, unitary: the noisy
+component stays inside the documented family (the draw itself is external to the model). -/
+theorem ps_max_error (φ m r : ℝ) (hm : 0 ≤ m) (hr : |r| ≤ 1) :
+    ∃ δ : ℝ, |δ| ≤ m ∧ psNum I (angR (φ + m * r)) = psDoc (φ + δ) ∧ IsUnitary (psDoc (φ + δ)) := by
+  refine ⟨m * r, ?_, (ps_complex _).1, (ps_complex _).2.2⟩
+  rw [abs_mul, abs_of_nonneg hm]
+  exact mul_le_of_le_one_right hm hr
+
+/-- …the symbolic branch with the same draw evaluates to the same matrix, whatever the two slots hold. -/
+theorem symbolic_ps_max_error (φ m : XExpr) (r : ℚ) (env : String → Option ℝ) {x e : ℝ}
+    (hφ : φ.evalR env = some x) (hm : m.evalR env = some e) :
+    ∀ i j, (symPSerr φ m r i j).evalC env = some (psDoc (x + e * (r : ℝ)) i j) := by
+  have hmr : (XExpr.mul m (.const r)).evalR env = some (e * (r : ℝ)) := by
+    simp only [XExpr.evalR] at hm
+    simp [XExpr.evalR, XExpr.eval, hm]
+  intro i j
+  fin_cases i; fin_cases j
+  simpa [symPSerr, psDoc] using evalC_expI (evalR_add hφ hmr)
+
+/-- `max_error` is declared on `[0, π]`, PERIODIC (`_set_parameter("max_error", max_error, 0, math.pi)`): whatever
+amplitude is requested, the stored one lies in `[0, π]` (a request of `3.5` becomes `3.5 - π`). -/
+theorem ps_max_error_stored (m : ℝ) :
+    ∃ w, wrap true (some 0) (some Real.pi) m = some w ∧ 0 ≤ w ∧ w ≤ Real.pi := by
+  obtain ⟨w, hw, h0, h1, _⟩ := wrap_spec (K := ℝ) (lo := 0) (hi := Real.pi) Real.pi_pos m
+  exact ⟨w, hw, h0, h1⟩
+
 /-- The numeric and symbolic branches read DIFFERENT things from a slot (`float()` / `spv`), and they agree:
 when every slot of a beam splitter reads a value (`float()`), the `spv` expressions exist, evaluate at the
 current values of the raw parameters to exactly these values (`slot_spv_evaluates_to_float`) — so, by
@@ -1042,6 +1069,117 @@ example : vars exL ["a", "f", "a"] = ["a", "a"] ∧
     (sstep true exL (.assign ["a", "f"] [("a", 9), ("f", 2), ("a", 3)])).2 = some .KeyError ∧
     ((sstep true exL (.assign ["a", "f"] [("a", 9), ("f", 2), ("a", 3)])).1 "a") =
       some ⟨some 0, some 4, true, true, some 1⟩ := by
+  decide +kernel
+
+/-! non-vacuity of the Expression / symbolic theorems -/
+
+/-- an interpretation of the function symbols by a finite table (what the driver runs with): `pi ↦ 22/7`,
+`sqrt 4 = 2`, `sin 0 = 0`, `cos 0 = 1`, everything else "not a real number" -/
+def exI : Interp ℚ :=
+  ⟨22 / 7, fun f x => match f with
+    | .sqrt => if x = 4 then some 2 else none
+    | .sin => if x = 0 then some 0 else none
+    | .cos => if x = 0 then some 1 else none
+    | _ => none⟩
+
+/-- `sqrt(a) + b**-2 + pi` -/
+def exTree : XExpr := .add (.add (.app .sqrt (.var "a")) (.powi (.var "b") (-2))) .pi
+
+/-- `expression_live` / `expression_live_from_creation`: parameters `a`, `b`; the Expression is created while
+they have no value, bound to a slot `[0, 6]`, the parameters are set, `a` is set again, reset, set — the hypotheses
+hold, and the slot reads `ValueError` → `2 + 4 + 22/7` → `TypeError` (`sqrt 9` is not in the table) → … -/
+def exHist : List XOp :=
+  [.base (.new "a" none none none true), .base (.new "b" none none none true), .xnew "e" exTree,
+   .xpar "e" (.bind (some 0) (some 6) (some true)), .base (.par "a" (.set 4 false)),
+   .base (.par "b" (.set (1 / 2) false))]
+
+example : (∀ op ∈ exHist.drop 3, op.creates "e" = false) ∧
+    (∀ op ∈ XOp.objOps "e" (exHist.drop 3), op.overrides = false) ∧
+    slotFloat exI (SM.exec (xstep true) (fun _ => none, fun _ => none) (exHist.take 4)) (.ex "e") = .inl .ValueError ∧
+    slotFloat exI (SM.exec (xstep true) (fun _ => none, fun _ => none) exHist) (.ex "e") = .inr (2 + 4 + 22 / 7) ∧
+    slotFloat exI (SM.exec (xstep true) (fun _ => none, fun _ => none)
+      (exHist ++ [.base (.par "a" (.set 9 false))])) (.ex "e") = .inl .TypeError ∧
+    slotFloat exI (SM.exec (xstep true) (fun _ => none, fun _ => none)
+      (exHist ++ [.base (.par "b" (.set 0 false))])) (.ex "e") = .inl .TypeError := by
+  decide +kernel
+
+/-- `expression_override_freezes`, `expression_reset_restores`: the object is bound to `[0, 6]` (periodic, first
+slot): `set_value(20)` is accepted and stores `2`; later `a := 16`… the slot still reads `2`, although the
+expression at the current values is not `2` (it is not even a real number in this table); after `reset()` the
+slot is live again; the override differs from the live value `2 + 4 + 22/7`. -/
+example :
+    (xstep true (SM.exec (xstep true) (fun _ => none, fun _ => none) exHist) (.xpar "e" (.set 20 false))).2 = none ∧
+    slotFloat exI (SM.exec (xstep true) (fun _ => none, fun _ => none)
+      (exHist ++ [.xpar "e" (.set 20 false), .base (.par "a" (.set 16 false)),
+        .xpar "e" (.bind (some 0) (some 12) (some true))])) (.ex "e") = .inr 2 ∧
+    slotFloat exI (SM.exec (xstep true) (fun _ => none, fun _ => none)
+      (exHist ++ [.xpar "e" (.set 20 false), .xpar "e" .reset])) (.ex "e") = .inr (2 + 4 + 22 / 7) ∧
+    (2 : ℚ) ≠ 2 + 4 + 22 / 7 := by
+  decide +kernel
+
+/-- the bounds of an Expression object: periodic on the first slot only (`is_periodic` answers `False`), then the
+intersection, not periodic — and the value is not touched (`expression_value_ignores_bounds`): `3 * a` at `a = 5`
+reads `15` on `[0, 6]`. -/
+example :
+    (SM.exec (estep true) (EObj.init (.mul (.const 3) (.var "a")))
+      [.bind (some 0) (some 6) (some true)]).par = ⟨some 0, some 6, true, true, none⟩ ∧
+    (SM.exec (estep true) (EObj.init (.mul (.const 3) (.var "a")))
+      [.bind (some 0) (some 6) (some true), .bind (some 0) (some 6) (some true)]).par = ⟨some 0, some 6, false, true, none⟩ ∧
+    (SM.exec (estep true) (EObj.init (.mul (.const 3) (.var "a")))
+      [.bind (some 0) (some 6) (some true), .bind (some 0) (some 12) (some true), .bind (some (-3)) (some 3) (some true)]).par
+        = ⟨some 0, some 3, false, true, none⟩ ∧
+    (∀ op ∈ [POp.bind (some 0) (some 6) (some true), .setPeriodic true], op.boundsOnly = true) ∧
+    (SM.exec (estep true) (EObj.init (.mul (.const 3) (.var "a"))) [.bind (some 0) (some 6) (some true)]).float exI
+      (fun x => if x = "a" then some ⟨none, none, true, true, some 5⟩ else none) = .inr 15 := by
+  decide +kernel
+
+/-- a rejected `fix_value` on an Expression object drops `_symbol`: `float()` raises `AttributeError`. -/
+example :
+    ((estep true (SM.exec (estep true) (EObj.init (.var "a"))
+      [.bind (some 0) (some 6) (some true), .bind (some 0) (some 12) (some true)]) (.fix 50)).1).float exI
+      (fun x => if x = "a" then some ⟨none, none, true, true, some 5⟩ else none) = .inl .AttributeError := by
+  decide +kernel
+
+/-- `expression_of_expressions`, `expression_composition_ignores_override`: `e1 = 2a`, `e2 = e1 + b`; at `a = 3`,
+`b = 1/4`: `e1 * e2 = 6 * 25/4`, and `e1 / e2` needs `e2 ≠ 0`; an overridden `e1` gives the same composition. -/
+example :
+    let st : LStore := fun x => if x = "a" then some ⟨none, none, true, true, some 3⟩
+      else if x = "b" then some ⟨none, none, true, true, some (1 / 4)⟩ else none
+    let e1 := EObj.init (.mul (.const 2) (.var "a"))
+    let e2 := EObj.binop .add e1 (EObj.init (.var "b"))
+    e1.e.eval exI (LStore.env st) = some 6 ∧ e2.e.eval exI (LStore.env st) = some (25 / 4) ∧
+      (EObj.binop .mul e1 e2).float exI st = .inr (6 * (25 / 4)) ∧
+      EObj.binop .mul { e1 with par := { e1.par with val := some 100 } } e2 = EObj.binop .mul e1 e2 := by
+  decide +kernel
+
+/-- `expression_subs_then_float`, `xexpr_extends_expr`, `slot_spv_evaluates_to_float` on concrete data. -/
+example :
+    (exTree.subst fun x => if x = "a" then some 4 else if x = "b" then some (1 / 2) else none).eval exI (fun _ => none)
+      = some (2 + 4 + 22 / 7) ∧
+    (Expr.pow (.var "a") 3).toX.eval exI (fun x => if x = "a" then some 2 else none) = some 8 ∧
+    slotSpv (SM.exec (xstep true) (fun _ => none, fun _ => none) exHist) (.ex "e") = some exTree ∧
+    slotSpv (SM.exec (xstep true) (fun _ => none, fun _ => none) (exHist ++ [.xpar "e" (.set 20 false)])) (.ex "e")
+      = some (.const 2) ∧
+    slotSpv (SM.exec (xstep true) (fun _ => none, fun _ => none) exHist) (.par "a") = some (.const 4) ∧
+    slotSpv (SM.exec (xstep true) (fun _ => none, fun _ => none) (exHist.take 3)) (.par "a") = some (.var "a") := by
+  decide +kernel
+
+/-- `symbolic_bs` … `symbolic_pr`: the hypotheses hold for slots holding an Expression tree (`2 * a`), a free
+symbol, a number, the exact `pi / 2`, at the values `a = 1/2`, `b = 3`. -/
+example :
+    let env : String → Option ℝ := fun x => if x = "a" then some (1 / 2) else if x = "b" then some 3 else none
+    (XExpr.mul (.const 2) (.var "a")).evalR env = some (((2 : ℚ) : ℝ) * (1 / 2)) ∧
+      (XExpr.var "b").evalR env = some 3 ∧ (XExpr.const (3 / 10)).evalR env = some (((3 / 10 : ℚ)) : ℝ) ∧
+      (XExpr.div .pi (.const 2)).evalR env = some (Real.pi / ((2 : ℚ) : ℝ)) := by
+  refine ⟨?_, ?_, ?_, ?_⟩ <;> simp [XExpr.evalR, XExpr.eval]
+
+/-- the executable instance of the symbolic branch (what the driver computes): `PS(e)` with `e` evaluating to
+`0` in the table interpretation has the symbolic entry `cos 0 + i sin 0 = 1`; with a value outside the table the
+entry is undefined. -/
+example :
+    (symPS (.sub (.var "a") (.var "a")) 0 0).eval exI GQ.ofRat GQ.I (fun x => if x = "a" then some 5 else none)
+      = some 1 ∧
+    (symPS (.var "a") 0 0).eval exI GQ.ofRat GQ.I (fun x => if x = "a" then some 5 else none) = none := by
   decide +kernel
 
 end PM.C14
